@@ -247,7 +247,7 @@ func expectedHookCalls(ts []*lib.Term, entry string, verbs []int) []lib.CallRec 
 			for _, x := range t.Xs {
 				walk(x, verb, inh, ro, false)
 			}
-		case "tslice":
+		case "tslice", "tarray":
 			u8 := len(t.Xs) > 0 && t.Xs[0].K == "obj" && func() bool {
 				for _, c := range t.Xs[0].Caps {
 					if c == "U8" {
